@@ -71,3 +71,8 @@ package rlp
 //@ func headsize
 //@   serves C23
 //@   ensures short: size < 56 <==> result == 1
+
+//@ # ASSUMED: the encoder writes to its io.Writer only (a hasher at the call sites under contract)
+//@ func Encode
+//@   trusted
+//@   modifies nothing
